@@ -160,6 +160,7 @@ void emit_split(Gen &g, Task &t, int slot, const std::vector<std::string> &prog,
       o.c = c;
       o.final_nl = last ? g.r.coin() : true;
       o.alias = g.r.chance(1, 10);
+      o.sep = g.r.chance(1, 12) ? 1 + (int)g.r.below(2) : 0;
       t.ops.push_back(o);
       cur.clear();
     }
@@ -493,6 +494,7 @@ void gen_history_task(Gen &g, Task &t, const HistCfg &cfg) {
       o.lines = prog;
       o.final_nl = r.coin();
       o.alias = r.chance(1, 12);
+      o.sep = r.chance(1, 12) ? 1 + (int)r.below(2) : 0;
       bool explicit_off = m.offset_explicit;
       o.fresh_twin = cfg.fresh_twin && explicit_off && !m.chunk_unknown;
       t.ops.push_back(o);
@@ -813,6 +815,7 @@ void gen_c14(Gen &g) {
     }
     unsigned cw = (unsigned)r.below(12);
     long c = cw == 0 ? r.range(-3, 1) : cw < 9 ? r.range(2, 48) : cw < 11 ? r.range(49, 4096) : 1000000;
+    if (nl > 1000 && r.coin()) c = r.range(5000, 9000);  // a boundary near the capacity of a new library-managed buffer
     if (kind < 4) {
       FileSpec f;
       f.path = "/sim/count" + std::to_string(nfiles++) + ".asm";
@@ -957,7 +960,9 @@ void gen_c12(Gen &g) {
   Plan &p = g.p;
   p.probe = true;
   int ntasks = 1 + (int)r.below(3);
-  static const int vals[] = {0, 1, 2, 3, 77, -1};
+  // documented values, and integers outside the enum: small, powers of two and their neighbours, extremes
+  static const int vals[] = {0, 1, 2, 0, 1, 2, 0, 1, 2, 3, 77, -1, 3, 77, -1, 4, 5, 8, 16, 31, 32, 33, 64, 65, 96, 128, 129, 255, 256, 257, 512, 1024, 65536, 65537, 0x7fffffff, -2, (int)0x80000000};
+  const size_t nvals = sizeof vals / sizeof vals[0];
   for (int ti = 0; ti < ntasks; ti++) {
     Task t;
     bool live[2] = {false, false};
@@ -982,7 +987,7 @@ void gen_c12(Gen &g) {
       }
       Op o = g.mk(OP_SETTER, slot);
       o.which = (int)r.below(5);
-      o.value = vals[r.below(6)];
+      o.value = vals[r.below(nvals)];
       t.ops.push_back(o);
     }
     p.tasks.push_back(t);
@@ -1012,7 +1017,14 @@ void gen_c08(Gen &g) {
   long target;
   unsigned tw = (unsigned)r.below(10);
   int maxq = g.thorough ? 8 : 4;
-  if (tw < 7)
+  const bool huge = r.chance(1, g.thorough ? 300 : 1500);  // hundreds of growth steps: page-alignment coincidences of the mapping sizes
+  if (huge) {
+    maxq = 280;
+    p.world.step_budget = 2000000000L;
+  }
+  if (huge)
+    target = lib_geometry().step * r.range(150, maxq) + r.range(-25, 25);
+  else if (tw < 7)
     target = lib_geometry().step * r.range(1, maxq) + r.range(-25, 25);
   else if (tw < 9)
     target = r.range(30, lib_geometry().step * maxq);
@@ -1113,6 +1125,7 @@ void gen_c19(Gen &g) {
   Plan &p = g.p;
   p.world.behind = (int)r.below(3);
   p.world.mem_policy = (int)r.below(3);
+  p.world.fd0_free = r.chance(1, 6);
   Task t;
   bool internal = r.chance(1, 3);
   Op cr = mk_create(g, 0, internal ? -1 : 70000);
@@ -1224,6 +1237,7 @@ void gen_c17(Gen &g) {
   Rng &r = g.r;
   Plan &p = g.p;
   p.world.mem_policy = (int)r.below(3);
+  p.world.fd0_free = r.chance(1, 6);
   Task t;
   // input files
   FileSpec f;
